@@ -10,7 +10,8 @@ COQ_HEADER = ("From Coq Require Import String List ZArith NArith.\nFrom RV Requi
               "Import ListNotations.\nLocal Open Scope string_scope.\nLocal Open Scope Z_scope.")
 RUN_EXPR = "Run.C29.run"
 RULE = ("(function, arguments) for abs/ceil/floor/round/percentage/div/max/min/clamp/sqrt/exp/log/pow/sin/cos/tan of "
-        "sass:math; magnitudes from: small integers, +-0.5 / +-1.5 / +-2.5 ties, quarter fractions, 0, huge (1e15+0.5, "
+        "sass:math; pow also on the libm-free family (+-1)^n, 0^n, (+-2)^n with huge whole n; clamp/min/max also with unitless "
+        "mixed with % / fr / px; magnitudes from: small integers, +-0.5 / +-1.5 / +-2.5 ties, quarter fractions, 0, huge (1e15+0.5, "
         "1e20), tiny (1e-7), random decimals; units none / px in cm / deg rad turn / s ms / % em / unknown, compatible "
         "and incompatible combinations; evaluated in a stylesheet with precision 10; distinct = distinct call text; "
         "non-trivial = an argument has a unit or a fractional part")
@@ -39,7 +40,7 @@ MAGS = [0.0, 1.0, -1.0, 2.0, -2.0, 3.0, 5.0, 0.5, -0.5, 1.5, -1.5, 2.5, -2.5, 0.
 LEN = ["px", "in", "cm"]
 ANG = ["deg", "rad", "turn"]
 TIME = ["s", "ms"]
-OTHER = ["%", "em", "foo"]
+OTHER = ["%", "fr", "em", "foo"]
 ALLU = [""] + LEN + ANG + TIME + OTHER
 FN1 = {"abs": 1, "ceil": 2, "floor": 3, "round": 4, "percentage": 5, "sqrt": 10}
 
@@ -114,6 +115,21 @@ def gen_cases(ctx, tier):
             if us[0] == us[2]:
                 args[0][0], args[2][0] = num_text(lo), num_text(hi)
         cases.append({"fn": "clamp", "args": args})
+    # clamp / min / max: unitless mixed with % and fr (units without a physical dimension) and with px
+    for u in ("%", "fr", "px"):
+        for pat in (("", u, ""), (u, "", u), ("", "", u), (u, u, ""), ("", u, u), (u, "", "")):
+            a = [arg(rng, w, [0.0, 1.0, 2.0, 10.0, 50.0, 100.0, 0.5]) for w in pat]
+            cases.append({"fn": "clamp", "args": a})
+            cases.append({"fn": rng.choice(["max", "min"]), "args": a})
+    cases.append({"fn": "clamp", "args": [["0", ""], ["50", "%"], ["1", ""]]})
+    cases.append({"fn": "clamp", "args": [["10", "%"], ["2", ""], ["100", "%"]]})
+    # pow where the value is known without libm: (+-1)^n, 0^n, (+-2)^n for huge whole n (parity / overflow sign)
+    HUGE = ["4294967296", "4294967297", "2147483648", "2147483649", "9007199254740992", "9007199254740993",
+            "1" + "0" * 20, "1" + "0" * 300, "2000", "2001", "-4294967296", "-4294967297", "-2000", "-2001",
+            "-1" + "0" * 300, "3", "4", "0", "-3"]
+    for b in ("1", "-1", "0", "2", "-2"):
+        for e in HUGE:
+            cases.append({"fn": "powx", "args": [[b, ""], [e, ""]]})
     for _ in range(n):
         name = rng.choice(["exp", "log", "pow", "sin", "cos", "tan"])
         pos = [m for m in MAGS if 0 < m < 200]
@@ -128,7 +144,7 @@ def gen_cases(ctx, tier):
 
 
 def call_text(c):
-    return "math.%s(%s)" % (c["fn"], ", ".join(a[0] + a[1] for a in c["args"]))
+    return "math.%s(%s)" % ("pow" if c["fn"] == "powx" else c["fn"], ", ".join(a[0] + a[1] for a in c["args"]))
 
 
 def impl_requests(c):
@@ -138,7 +154,7 @@ def impl_requests(c):
     return reqs
 
 
-FNID = dict(FN1, div=6, max=7, min=8, clamp=9, exp=11, log=11, pow=11, sin=12, cos=12, tan=12)
+FNID = dict(FN1, div=6, max=7, min=8, clamp=9, exp=11, log=11, pow=11, sin=12, cos=12, tan=12, powx=13)
 NUMRE = re.compile(r"^(-?[0-9]*\.?[0-9]+)([a-zA-Z%]*)$")
 
 
@@ -157,6 +173,8 @@ def parse_impl(o):
         return ("num", n.group(1), n.group(2))
     if v.startswith(("max(", "min(")):
         return ("kept", None, None)
+    if v in ("calc(infinity)", "calc(-infinity)"):
+        return ("inf", v, None)
     return ("other", v, None)
 
 
@@ -172,6 +190,7 @@ def coq_term(c, io):
         args.append(f"({cz(int(f[1]))}, {cstring(u)})")
     kind, t, u = parse_impl(io[0])
     impl = {"num": lambda: f"(INum {cbytes(t)} {cstring(u)})", "err": lambda: "IErr", "kept": lambda: "IKept",
+            "inf": lambda: "(IInf %s)" % cbool(t.startswith("calc(-")),
             "other": lambda: "IOther"}[kind]()
     return f"(mkCase {cz(FNID[c['fn']])} {clist(args)} {impl})"
 
